@@ -52,7 +52,7 @@ def run_one(cdir, name, h, cfg, tier):
     except Exception as e:
         return {'name': name, 'status': 'error', 'error': 'link: %s' % e, 'runs': [], 'time': time.time() - t0}
     chain = backend_chain(name, cfg, tier)
-    tmo = cfg.get('timeout', {}).get(tier, 240 if tier == 'quick' else 1500)
+    tmo = cfg.get('timeout', {}).get(tier, 480 if tier == 'quick' else 1800)
     runs = []
     final = None
     for be in chain:
